@@ -879,12 +879,13 @@ class ContentAttrParser(object):
         try:
             # Check if the attr name is charset
             # otherwise return
-            self.data.jumpTo(b"charset")
-            self.data.position += 1
-            self.data.skip()
-            if not self.data.currentByte == b"=":
-                # If there is no = sign keep looking for attrs
-                return None
+            while True:
+                self.data.jumpTo(b"charset")
+                self.data.position += 1
+                self.data.skip()
+                if self.data.currentByte == b"=":
+                    break
+                # no = sign after this "charset": keep looking for the next one
             self.data.position += 1
             self.data.skip()
             # Look for an encoding between matching quote marks
